@@ -10,6 +10,7 @@ pub mod c08;
 pub mod c09;
 pub mod c10;
 pub mod c11;
+pub mod c12;
 pub mod c13;
 pub mod c14;
 
@@ -26,6 +27,7 @@ pub fn dispatch(prop: &str, run: &mut Run) {
         "C09" => c09::run(run),
         "C10" => c10::run(run),
         "C11" => c11::run(run),
+        "C12" => c12::run(run),
         "C13" => c13::run(run),
         "C14" => c14::run(run),
         _ => {
